@@ -109,6 +109,7 @@ func runC13(c *Ctx) {
 	c.Rule("C13.finish", "retryMonitor defers, at entry, a closure that closes target.finished and invokes no callback afterwards; every returning path leaves the loop through the ctx.Done() arm")
 	c.Rule("C13.remove", "Remove: unknown name => error with no cancel/wait/delete; otherwise under m.mu: cancel() then receive from finished then delete(targets, name), nil returned only after the receive")
 	c.Rule("C13.add", "Add: duplicate => error before the map store and before any go; success => exactly one map store and one go retryMonitor under m.mu with a fresh unbuffered finished channel")
+	c.Borrow("C16", map[string]string{"C16.locked": "C13.conn-locks"}, "'failed sessions are retried for as long as the target is managed, and Remove returns': every session attempt and every release goes through the connection manager's mutex - a path that returns with it held blocks all later attempts of every target, and Remove then waits for a monitor that never finishes")
 	c.Rule("C13.retry-forever", "retryMonitor stores the constant 0 into the backoff's MaxElapsedTime before the loop and re-arms the timer (Timer.Reset) after every monitor attempt before selecting again")
 	c.Rule("C13.locks", "Manager.targets only under Manager.mu, target.reconnect only under target.mu, all locks released on all exits, no re-entrant acquisition; no function synchronously reachable from retryMonitor acquires Manager.mu before finished is closed (Remove holds it while waiting)")
 
@@ -346,6 +347,16 @@ func runC13(c *Ctx) {
 				fmt.Sprintf("close(finished)@%d callback-after-close=%v exit-arm-is-ctx.Done=%v; path: %s", cl, after, ctxExit, p.String()))
 			c.Check(meOK && rearm, "C13.retry-forever", fnName(rm), "MaxElapsedTime=0 before the loop, timer re-armed after every attempt", P.Pos(rm.Pos()),
 				fmt.Sprintf("MaxElapsedTime=0 first=%v re-armed=%v; path: %s", meOK, rearm, p.String()))
+			// the delay the timer is re-armed with is the next delay of that never-ending policy itself, or of a wrapper
+			// that can only stop it when monitoring of the target ends (backoff.WithContext bound to retryMonitor's own ctx)
+			for j := range p.Trace {
+				ev := &p.Trace[j]
+				if ev.Label != "call:(*time.Timer).Reset" || len(ev.Args) < 2 || !p.Has(lbl("call:"+fnName(mon))) || j < p.Index(0, lbl("call:"+fnName(mon))) {
+					continue
+				}
+				okD, why := backoffDelayOK(ev.Args[1].V, ssa.Value(param(rm, 1)), 0)
+				c.Check(okD, "C13.retry-forever", fnName(rm), "the retry delay comes from the never-ending backoff policy", P.Pos(posOf(ev.In)), why)
+			}
 		}
 		c.Floor("C13.finish/returning-paths", n, 1)
 		// the closing closure is deferred in the entry region (dominates every return)
@@ -477,20 +488,79 @@ func runC13(c *Ctx) {
 		la.Report(func(kind string) string { return "C13.locks" })
 		c.Check(la.Accesses >= 6, "C13.locks", "manager", "guarded accesses analysed", "", fmt.Sprintf("%d accesses on paths, %d directly under their mutex", la.Accesses, la.Guarded))
 		// nothing on the monitor goroutine takes Manager.mu before close(finished)
-		S := syncReachExcept(rm, func(f *ssa.Function) bool {
-			// the deferred closing closure runs after close(finished); its order is checked by C13.finish
-			closes := false
-			if f.Parent() == rm {
-				instrs(f, func(in ssa.Instruction) {
-					if call, ok := in.(*ssa.Call); ok {
-						if b, ok := call.Call.Value.(*ssa.Builtin); ok && b.Name() == "close" && fieldOf(call.Call.Args[0]) == fFinished {
-							closes = true
+		// the function deferred by retryMonitor that closes finished (a literal or a named function): what it does
+		// after the close is not "before finished is closed"; the order inside it is checked below
+		closesFinished := func(f *ssa.Function) ssa.Instruction {
+			var at ssa.Instruction
+			instrs(f, func(in ssa.Instruction) {
+				if call, ok := in.(*ssa.Call); ok {
+					if b, ok := call.Call.Value.(*ssa.Builtin); ok && b.Name() == "close" && fieldOf(call.Call.Args[0]) == fFinished {
+						at = in
+					}
+				}
+			})
+			return at
+		}
+		closers := map[*ssa.Function]bool{}
+		instrs(rm, func(in ssa.Instruction) {
+			if d, ok := in.(*ssa.Defer); ok {
+				if cal := staticCallee(&d.Call); cal != nil && closesFinished(cal) != nil {
+					closers[cal] = true
+				}
+			}
+		})
+		S := syncReachExcept(rm, func(f *ssa.Function) bool { return closers[f] })
+		acquiresMu := func(g *ssa.Function) bool {
+			for h := range syncReach(g) {
+				for a := range la.acq[h] {
+					if a.field == fMu {
+						return true
+					}
+				}
+				found := false
+				instrs(h, func(in ssa.Instruction) {
+					if call, ok := in.(ssa.CallInstruction); ok {
+						if calleeName(call.Common()) == "(*sync.Mutex).Lock" && len(call.Common().Args) > 0 && fieldOf(call.Common().Args[0]) == fMu {
+							found = true
 						}
 					}
 				})
+				if found {
+					return true
+				}
 			}
-			return closes
-		})
+			return false
+		}
+		for h := range closers {
+			cl := closesFinished(h)
+			instrs(h, func(in ssa.Instruction) {
+				call, ok := in.(ssa.CallInstruction)
+				if !ok || in == cl {
+					return
+				}
+				takes := calleeName(call.Common()) == "(*sync.Mutex).Lock" && len(call.Common().Args) > 0 && fieldOf(call.Common().Args[0]) == fMu
+				if g := staticCallee(call.Common()); g != nil && g.Pkg == rm.Pkg && acquiresMu(g) {
+					takes = true
+				}
+				if !takes {
+					return
+				}
+				after := false
+				if in.Block() == cl.Block() {
+					for _, x := range in.Block().Instrs {
+						if x == cl {
+							after = true
+						}
+						if x == in {
+							break
+						}
+					}
+				} else {
+					after = cl.Block().Dominates(in.Block())
+				}
+				c.Check(after, "C13.locks", fnName(h), "Manager.mu is taken only after close(finished) in the closing function", P.Pos(in.Pos()), "Remove holds Manager.mu while waiting for finished")
+			})
+		}
 		for f := range S {
 			for a := range la.acq[f] {
 				if f == rm {
@@ -699,4 +769,54 @@ func cbUses(f *ssa.Function, cb map[*types.Var]string) []cbUse {
 		}
 	})
 	return out
+}
+
+// backoffDelayOK: v is (derived from) NextBackOff() of an *ExponentialBackOff, or of backoff.WithContext(policy, ctx)
+// with ctx the monitor's own context parameter.  Any other wrapper (another context, WithMaxRetries, ...) can
+// return backoff.Stop while the target is still managed.
+func backoffDelayOK(v ssa.Value, ctxParam ssa.Value, d int) (bool, string) {
+	if d > 6 {
+		return false, "delay expression too deep"
+	}
+	switch x := v.(type) {
+	case *ssa.Phi:
+		for _, e := range x.Edges {
+			if ok, why := backoffDelayOK(e, ctxParam, d+1); !ok {
+				return false, why
+			}
+		}
+		return true, ""
+	case *ssa.Convert:
+		return backoffDelayOK(x.X, ctxParam, d+1)
+	case *ssa.ChangeType:
+		return backoffDelayOK(x.X, ctxParam, d+1)
+	case *ssa.Call:
+		if x.Call.IsInvoke() {
+			if x.Call.Method.Name() != "NextBackOff" {
+				return false, "delay from " + Expr(x)
+			}
+			recv := x.Call.Value
+			if mi, ok := recv.(*ssa.MakeInterface); ok {
+				recv = mi.X
+			}
+			if w, ok := recv.(*ssa.Call); ok {
+				if g := staticCallee(&w.Call); g != nil && g.Name() == "WithContext" && strings.HasSuffix(pkgPathOf(g), "backoff/v4") && len(w.Call.Args) == 2 {
+					if w.Call.Args[1] == ctxParam {
+						return true, ""
+					}
+					return false, "policy wrapped by backoff.WithContext with " + Expr(w.Call.Args[1]) + ", not the monitor's own context: once that context is cancelled every delay is backoff.Stop although the target is still managed"
+				}
+				return false, "policy wrapped by " + Expr(w)
+			}
+			if strings.Contains(recv.Type().String(), "ExponentialBackOff") {
+				return true, ""
+			}
+			return false, "NextBackOff of " + Expr(recv)
+		}
+		if g := staticCallee(&x.Call); g != nil && g.Name() == "NextBackOff" && strings.Contains(fnName(g), "ExponentialBackOff") {
+			return true, ""
+		}
+		return false, "delay from " + Expr(x)
+	}
+	return false, "delay is " + Expr(v) + ", not the next delay of the backoff policy"
 }
